@@ -259,6 +259,8 @@ class CFG:
         return self._reach_from(a, skip_nodes=set(avoiding))
 
     def path_exists(self, a, b, avoiding=()):
+        if a in avoiding:
+            return False
         if a == b:
             return True
         return b in self._reach_from(a, skip_nodes=set(avoiding))
@@ -490,6 +492,26 @@ def strip_payload(t):
     """remove ('v', X, variant) wrappers: payload of unwrap/?/match-binding is 'the same thing' for identity"""
     while isinstance(t, tuple) and t and t[0] == 'v':
         t = t[1]
+    return t
+
+
+def unwrap_payload(t):
+    """identity through Option/Result payload extraction: ('v',X,_) and ('f',('v',X,_),'0') -> X"""
+    while isinstance(t, tuple) and t:
+        if t[0] == 'v':
+            t = t[1]
+        elif t[0] == 'f' and t[2] == '0' and isinstance(t[1], tuple) and t[1] and t[1][0] == 'v':
+            t = t[1][1]
+        else:
+            break
+    return t
+
+
+def deep_unwrap(t):
+    """unwrap_payload applied at every level of the term"""
+    t = unwrap_payload(t)
+    if isinstance(t, tuple):
+        return tuple(deep_unwrap(x) if isinstance(x, tuple) else x for x in t)
     return t
 
 
